@@ -81,20 +81,11 @@ func (h *inFlightRequestsHandler) onOutgoingFrameEnqueued(f *frame.Frame) (InFli
 			f.Header.StreamId = streamId
 		}
 	}
-	h.inFlightLock.RLock()
-	if len(h.inFlight) == h.maxInFlight {
-		err = fmt.Errorf("%v: too many in-flight requests: %v", h, h.maxInFlight)
-	} else if _, found := h.inFlight[streamId]; found {
-		err = fmt.Errorf("%v: stream id already in use: %d", h, streamId)
-	}
-	h.inFlightLock.RUnlock()
+	var inFlight *inFlightRequest
+	inFlight, err = h.addInFlight(streamId, managedStreamId)
 	if err == nil {
-		var inFlight *inFlightRequest
-		inFlight, err = h.addInFlight(streamId, managedStreamId)
-		if err == nil {
-			inFlight.startTimeout()
-			return inFlight, nil
-		}
+		inFlight.startTimeout()
+		return inFlight, nil
 	}
 	return nil, err
 }
@@ -134,6 +125,13 @@ func (h *inFlightRequestsHandler) addInFlight(streamId int16, managedStreamId bo
 	defer h.inFlightLock.Unlock()
 	if h.isClosed() {
 		return nil, fmt.Errorf("%v: handler closed", h)
+	}
+	// the limit and duplicate checks must be made under the same lock as the registration,
+	// otherwise two concurrent sends can both pass them
+	if len(h.inFlight) == h.maxInFlight {
+		return nil, fmt.Errorf("%v: too many in-flight requests: %v", h, h.maxInFlight)
+	} else if _, found := h.inFlight[streamId]; found {
+		return nil, fmt.Errorf("%v: stream id already in use: %d", h, streamId)
 	}
 	h.inFlight[streamId] = inFlight
 	return inFlight, nil
